@@ -13,7 +13,7 @@ PROPERTY_TASKS = {
             "C07/connect", "C07/disconnect", "C07/remove", "C07/set_output", "C07/add[default]", "C07/add[uid]"],
     "C12": ["layer1/Circuit.type", "layer1/Circuit.is_output", "layer1/Circuit.nodes", "layer1/Circuit.edges", "layer1/Circuit.io",
             "layer1/Circuit.fanin", "layer1/Circuit.fanout", "layer1/Circuit.startpoints", "layer1/Circuit.endpoints",
-            "layer1/Circuit.inputs", "layer1/Circuit.outputs", "layer1/Circuit.filter_type", "layer1/Circuit.transitive_fanin", "layer1/Circuit.transitive_fanout", "layer1/Circuit.is_cyclic"],
+            "layer1/Circuit.inputs", "layer1/Circuit.outputs", "layer1/Circuit.filter_type", "layer1/Circuit.__contains__", "layer1/Circuit.transitive_fanin", "layer1/Circuit.transitive_fanout", "layer1/Circuit.is_cyclic"],
     "C01": ["C01/cnf", "C01/add_assumptions", "C01/solve[no assumptions]", "C01/solve[assumptions]"],
     "C04": ["C04/miter[self,default]", "C04/miter[pair,default]", "C04/miter[pair,explicit]", "C04/miter-encoding-lemma"],
     "C13": ["C13/clog2", "C13/half_adder", "C13/half_adder[body == contract]", "C13/full_adder"],
